@@ -22,6 +22,63 @@ PGC = 'tokio_postgres::Config::'
 GROUP = {'hosts': 'host', 'hostaddrs': 'hostaddr', 'ports': 'port'}
 EXCLUDED = {'url': 'feeds tokio_postgres::Config::from_str', 'manager': 'consumed by builder() via get_manager_config()', 'pool': 'consumed by builder() via get_pool_config()'}
 
+ITER_ALTER = ('filter', 'skip', 'take', 'step_by', 'rev', 'skip_while', 'take_while', 'filter_map', 'dedup', 'dedup_by', 'dedup_by_key', 'sort', 'sort_by', 'sort_by_key', 'sort_unstable',
+              'sort_unstable_by', 'reverse', 'retain', 'truncate', 'drain', 'remove', 'swap_remove', 'pop', 'clear', 'split_off', 'rotate_left', 'rotate_right', 'swap', 'last', 'nth', 'find', 'max', 'min')
+ITER_PASS = ('map', 'collect', 'to_vec', 'to_owned', 'extend', 'iter', 'into_iter', 'iter_mut', 'flatten', 'copied', 'cloned', 'as_ref', 'as_deref', 'as_slice', 'deref', 'by_ref', 'peekable', 'fuse', 'as_mut', 'borrow', 'clone', 'into', 'as_str', 'unwrap', 'branch')
+
+
+def ordered_fields(an, op, depth=0, seen=None):
+    """Config fields feeding the value / iterator in `op`, in the order in which an iteration yields them
+    (`a.iter().chain(b.iter().flatten())` yields a's element first); (fields, ordered?)"""
+    seen = seen if seen is not None else set()
+    if depth == 0:
+        ordered_fields.altered = []
+    if op.kind == 'const' or depth > 14:
+        return [], True
+    p = op.place
+    mine = [f for o_, f in p.fields() if o_ == CFG]
+    if mine:
+        return [mine[0]], True
+    if p.local in seen:
+        return [], True
+    seen.add(p.local)
+    out = []; ordered = True
+    # the collection is changed in place on the way (`hosts.dedup()`): calls that receive `&mut` of this local
+    for blk_ in an.b.blocks:
+        t_ = blk_.term
+        if t_.kind == 'call' and not blk_.cleanup and t_.args and t_.args[0].kind != 'const' and not t_.args[0].place.proj:
+            d0 = an.single_def(t_.args[0].place.local)
+            if d0 and d0[0] == 'stmt' and d0[3].rv.kind == 'ref' and d0[3].rv.place.local == p.local and not d0[3].rv.place.proj:
+                m_ = {strip_generics(n).split('::')[-1] for n in t_.callee_names()}
+                if m_ & set(ITER_ALTER):
+                    ordered_fields.altered.append((sorted(m_ & set(ITER_ALTER))[0], t_.line))
+    for d in an.defs(p.local):
+        if d[0] == 'stmt':
+            rv = d[3].rv
+            if rv.kind in ('use', 'cast', 'agg', 'repeat'):
+                for o in rv.ops:
+                    f_, k_ = ordered_fields(an, o, depth + 1, seen); out += [x for x in f_ if x not in out]; ordered = ordered and k_
+            elif rv.kind in ('ref', 'copyderef', 'rawptr', 'discr'):
+                f_, k_ = ordered_fields(an, Operand({'c': {'l': rv.place.local, 'pr': list(rv.place.proj), 'own': list(rv.place.own)}}), depth + 1, seen)
+                out += [x for x in f_ if x not in out]; ordered = ordered and k_
+        else:
+            t = d[3]
+            meth = {strip_generics(n).split('::')[-1] for n in t.callee_names()}
+            if meth & set(ITER_ALTER) and any('Iterator' in n or 'iter::' in n for n in t.callee_names()):
+                ordered_fields.altered.append((sorted(meth & set(ITER_ALTER))[0], t.line))
+            if 'chain' in meth and len(t.args) == 2:
+                a, ka = ordered_fields(an, t.args[0], depth + 1, seen); b, kb = ordered_fields(an, t.args[1], depth + 1, seen)
+                out += [x for x in a + b if x not in out]; ordered = ordered and ka and kb
+            elif (meth & set(ITER_PASS) or meth & set(ITER_ALTER) or 'next' in meth) and t.args:
+                f_, k_ = ordered_fields(an, t.args[0], depth + 1, seen); out += [x for x in f_ if x not in out]; ordered = ordered and k_
+            else:
+                fl = sorted({s_[1].split('.')[-1] for a in t.args for s_ in sources(an, a, deep=True) if s_[0] == 'field' and s_[1].startswith(CFG + '.')})
+                out += [x for x in fl if x not in out]
+                if len(fl) > 1:
+                    ordered = False
+    return out, ordered
+
+
 
 def run(ctx):
     prog = ctx.prog
@@ -37,26 +94,49 @@ def run(ctx):
     fields = [f['name'] for f in adt['variants'][0]['fields']]
     ctx.role('Config fields', fields)
     setters = {}
+    areg = preds.assertion_region_blocks(g, an)
     for blk in g.blocks:
         t = blk.term
         if t.kind == 'call' and not blk.cleanup:
             for n in t.callee_names():
                 if n.startswith(PGC):
+                    if n[len(PGC):].startswith('get_') and blk.idx in areg:
+                        continue          # a getter read by a debug assertion decides nothing
                     setters.setdefault(n[len(PGC):], []).append(blk)
 
+    # application sites of each setter: (position in get_pg_config, Config fields applied there in order, iterated?, order known?)
+    # - a call in get_pg_config itself, or in a closure handed to Iterator::for_each there (positioned at the for_each)
+    sites = {}
+    for name, blks in setters.items():
+        for blk in blks:
+            fl = []; ordered = True
+            for a in blk.term.args[1:]:
+                f_, k_ = ordered_fields(an, a); fl += [x for x in f_ if x not in fl]; ordered = ordered and k_
+                for m_, ln_ in ordered_fields.altered:
+                    ctx.ob('R18.2', 'every configured value reaches %s, in the order given' % name, False, ctx.where(g, ln_),
+                           '`%s` on the way from %s to tokio_postgres::Config::%s drops or reorders values' % (m_, fl, name), construct='altered:%s:%s' % (name, m_))
+            sites.setdefault(name, []).append((blk, fl, in_cycle(an, blk.idx), ordered))
+    for fblk, cb in closure_args_of(prog, g, ['std::iter::Iterator::for_each']):
+        can = prog.an(cb)
+        for blk in cb.blocks:
+            t = blk.term
+            if t.kind == 'call' and not blk.cleanup:
+                for n in t.callee_names():
+                    if n.startswith(PGC) and not n[len(PGC):].startswith('get_'):
+                        from_param = any(s_[0] == 'arg' for a in t.args[1:] for s_ in sources(can, a, deep=True))
+                        fl, ordered = ordered_fields(an, fblk.term.args[0]) if from_param else ([], True)
+                        for m_, ln_ in (ordered_fields.altered if from_param else []):
+                            ctx.ob('R18.2', 'every configured value reaches %s, in the order given' % n[len(PGC):], False, ctx.where(g, ln_),
+                                   '`%s` on the way from %s to tokio_postgres::Config::%s drops or reorders values' % (m_, fl, n[len(PGC):]), construct='altered:%s:%s' % (n[len(PGC):], m_))
+                        sites.setdefault(n[len(PGC):], []).append((fblk, fl, True, ordered))
+                        setters.setdefault(n[len(PGC):], [])
     # ---- R18.1 field coverage ----------------------------------------------------------------------------
     unread = []
     for f in fields:
         if f in EXCLUDED:
             continue
         setter = GROUP.get(f, f)
-        hit = []
-        for blk in setters.get(setter, []):
-            src = set()
-            for a in blk.term.args[1:]:
-                src |= sources(an, a, deep=True)
-            if any(s[0] == 'field' and s[1] == '%s.%s' % (CFG, f) for s in src):
-                hit.append(blk)
+        hit = [blk for blk, fl, looped, ordered in sites.get(setter, []) if f in fl]
         if not hit:
             unread.append(f)
         ctx.ob('R18.1', 'Config.%s reaches tokio_postgres::Config::%s' % (f, setter), bool(hit), ctx.where(g),
@@ -77,20 +157,20 @@ def run(ctx):
         ctx.ob('R18.2', 'the URL is parsed before any option is applied (scalars override the URL)', not before, ctx.where(g, fs[0].term.line),
                'setters at line(s) %s precede the URL parse' % [x.term.line for x in before], construct='order:url-first')
     def field_calls(setter, f):
-        out = []
-        for blk in setters.get(setter, []):
-            src = set()
-            for a in blk.term.args[1:]:
-                src |= sources(an, a, deep=True)
-            if any(s[0] == 'field' and s[1] == '%s.%s' % (CFG, f) for s in src):
-                out.append(blk)
-        return out
+        return [blk for blk, fl, looped, ordered in sites.get(setter, []) if f in fl]
     for plural, singular in GROUP.items():
-        a = field_calls(singular, singular); b = field_calls(singular, plural)
-        ok = bool(a) and bool(b) and all(y.idx in an.reach_after(x.idx, ('normal',)) and x.idx not in an.reach_after(y.idx, ('normal',)) for x in a for y in b)
+        sa = [(blk, fl.index(singular), ordered) for blk, fl, looped, ordered in sites.get(singular, []) if singular in fl]
+        sb = [(blk, fl.index(plural), ordered, looped) for blk, fl, looped, ordered in sites.get(singular, []) if plural in fl]
+        if any(not o_ for _, _, o_ in sa) or any(not o_ for _, _, o_, _ in sb):
+            ctx.undecide('R18.2', 'the order in which %s and %s reach the setter is not understood (computed through a call that mixes them)' % (singular, plural)); continue
+        def before(x, i, y, j):
+            if x.idx == y.idx:
+                return i < j
+            return y.idx in an.reach_after(x.idx, ('normal',)) and x.idx not in an.reach_after(y.idx, ('normal',))
+        ok = bool(sa) and bool(sb) and all(before(x, i, y, j) for x, i, _ in sa for y, j, _, _ in sb)
         ctx.ob('R18.2', '%s is applied before %s' % (singular, plural), ok, ctx.where(g), '', construct='order:%s<%s' % (singular, plural))
-        for y in b:
-            ctx.ob('R18.2', 'every element of %s is applied (loop)' % plural, in_cycle(an, y.idx), ctx.where(g, y.term.line), '', construct='loop:' + plural)
+        for y, j, _, looped in sb:
+            ctx.ob('R18.2', 'every element of %s is applied (loop)' % plural, looped, ctx.where(g, y.term.line), '', construct='loop:' + plural)
     gh = setters.get('get_hosts', [])
     hp = setters.get('host_path', []) + [x for x in setters.get('host', []) if not field_calls('host', 'host') or x not in field_calls('host', 'host') + field_calls('host', 'hosts')]
     if len(gh) != 1:
@@ -142,7 +222,25 @@ def run(ctx):
         if sw:
             arms = dict(sw[0].term.switch_arms())
             rn = an.reach([arms['None']], ('normal',), avoid=[arms['Some']])
-            okm = len(errs.get('DbnameMissing', [])) == 1 and errs['DbnameMissing'][0].idx in rn
+            dm = errs.get('DbnameMissing', [])
+            def feeds_none_arm(x):
+                # `get_dbname().ok_or(DbnameMissing)?`: the error value is built before the test and used on its None arm only
+                ls = [st.place.local for st in x.stmts if st.kind == 'assign' and st.rv.kind == 'agg' and st.rv.j.get('adt') == 'deadpool_postgres::config::ConfigError' and st.rv.j.get('variant') == 'DbnameMissing' and st.place.is_local()]
+                users = [(y.idx, st) for y in g.blocks if not y.cleanup for st in y.stmts if st.kind == 'assign' and st.rv.kind == 'agg' and st.rv.j.get('adt') == 'std::result::Result' and st.rv.j.get('variant') == 'Err'
+                         and any(o.kind != 'const' and any(s_[0] == 'agg' and s_[1].endswith('ConfigError::DbnameMissing') and s_[2] == x.idx for s_ in sources(an, o)) for o in st.rv.ops)]
+                return bool(ls) and bool(users) and all(u in rn and u not in an.reach([arms['Some']], ('normal',), avoid=[arms['None']]) for u, _ in users)
+            inside = [x for x in dm if x.idx in rn or feeds_none_arm(x)]
+            # a shortcut taken before the configuration is built - no URL and no (non-empty) dbname field - gives the same answer
+            def shortcut(x):
+                fl = set()
+                for d_ in an.doms(('normal',)).get(x.idx) or ():
+                    bd_ = g.blocks[d_]
+                    if bd_.term.kind == 'switch' and bd_.term.discr.kind != 'const':
+                        fl |= {s_[1] for s_ in sources(an, bd_.term.discr, deep=True) if s_[0] == 'field'}
+                        if 'on' in bd_.term.j:
+                            fl |= {s_[1] for s_ in sources(an, Operand({'c': bd_.term.j['on']}), deep=True) if s_[0] == 'field'}
+                return CFG + '.url' in fl and CFG + '.dbname' in fl and not any(gd[0].idx in an.doms(('normal',)).get(x.idx, ()) for _ in [0])
+            okm = len(inside) == 1 and all(shortcut(x) for x in dm if x not in inside)
             rs = an.reach([arms['Some']], ('normal',), avoid=[arms['None']])
             em = errs.get('DbnameEmpty', [])
             if len(em) == 1 and em[0].idx in rs and em[0].idx not in rn:
@@ -199,9 +297,10 @@ def run(ctx):
             if not p.startswith('deadpool_postgres::config') and not p.startswith('<deadpool_postgres::config'):
                 continue
             bb = prog.bodies[p]
+            afail = preds.assertion_failure_blocks(bb, prog.an(bb))
             for blk in bb.blocks:
-                if blk.cleanup:
-                    continue
+                if blk.cleanup or blk.idx in afail:
+                    continue          # (the failure branch of a debug assertion: assumed to hold, counted in the evidence)
                 t = blk.term
                 if t.kind == 'assert':
                     ctx.ob('R18.4', 'no assert in the configuration path', False, ctx.where(bb, t.line), t.j['msg'], construct='panic:assert:' + bb.name)
@@ -235,6 +334,10 @@ def run(ctx):
             if blk.term.kind == 'call' and blk.term.dest is not None and blk.term.dest.local == 0:
                 for a in blk.term.args:
                     src |= sources(ban, a, deep=True)
+            for st in blk.stmts:
+                if st.kind == 'assign' and st.place.is_local() and st.place.local == 0 and not blk.cleanup:
+                    for o in st.rv.ops:
+                        src |= sources(ban, o, deep=True)
         ctx.ob('R18.5', '%s returns the %s section unchanged (or its default)' % (fn, fld), any(s[0] == 'field' and s[1] == '%s.%s' % (CFG, fld) for s in src), ctx.where(b), '', construct='section:' + fld)
     cp = prog.body('deadpool_postgres::config::Config::create_pool')
     if cp is not None:
